@@ -76,8 +76,26 @@ func typeName(e ast.Expr) string {
 	return ""
 }
 
-// lockCall recognises X.lock.Lock() / RLock() / Unlock() / RUnlock(); returns (X, op)
-func lockCall(e ast.Expr) (string, string) {
+// The instance mutex is identified by its declared TYPE, not by its name: the one field of the struct
+// declared as sync.Mutex / sync.RWMutex / pointer to either (collectStructs).  A struct of the five
+// with no such field, with several, or with an embedded (nameless) one is not understood: every method
+// of that type is `unknown` in both tables.
+var (
+	mutexFieldOf = map[string]string{} // mem type -> name of its mutex field
+	mutexNames   = map[string]bool{}   // the names above (for instances whose type is not known)
+	mutexProblem = map[string]string{} // mem type -> why its mutex field is not understood
+)
+
+// isMutexField: is `field` the mutex field of an instance of type typ ("" = type not known)
+func isMutexField(typ, field string) bool {
+	if typ != "" {
+		return mutexFieldOf[typ] != "" && mutexFieldOf[typ] == field
+	}
+	return mutexNames[field]
+}
+
+// lockCall recognises X.<mutex>.Lock() / RLock() / Unlock() / RUnlock(); returns (X, op)
+func (m *methodInfo) lockCall(e ast.Expr) (string, string) {
 	call, ok := e.(*ast.CallExpr)
 	if !ok {
 		return "", ""
@@ -87,11 +105,11 @@ func lockCall(e ast.Expr) (string, string) {
 		return "", ""
 	}
 	inner, ok := sel.X.(*ast.SelectorExpr)
-	if !ok || inner.Sel.Name != "lock" {
+	if !ok {
 		return "", ""
 	}
 	id, ok := inner.X.(*ast.Ident)
-	if !ok {
+	if !ok || !isMutexField(m.params[id.Name], inner.Sel.Name) {
 		return "", ""
 	}
 	switch sel.Sel.Name {
@@ -138,7 +156,7 @@ func (m *methodInfo) scan(n ast.Node, st *lockState, lhsWrite bool) {
 			// `go` statements are rejected in walk()
 			return true
 		case *ast.CallExpr:
-			if id, op := lockCall(v); id != "" {
+			if id, op := m.lockCall(v); id != "" {
 				_ = op
 				m.unknown = true // lock operation in an unexpected position
 				return false
@@ -194,8 +212,8 @@ func (m *methodInfo) scan(n ast.Node, st *lockState, lhsWrite bool) {
 	})
 }
 
-func isLockIf(s *ast.IfStmt) (string, string, bool) {
-	// if <cond> { X.lock.Lock(); defer X.lock.Unlock() }
+func (m *methodInfo) isLockIf(s *ast.IfStmt) (string, string, bool) {
+	// if <cond> { X.<mutex>.Lock(); defer X.<mutex>.Unlock() }
 	if s.Else != nil || s.Init != nil || len(s.Body.List) != 2 {
 		return "", "", false
 	}
@@ -203,7 +221,7 @@ func isLockIf(s *ast.IfStmt) (string, string, bool) {
 	if !ok {
 		return "", "", false
 	}
-	id, op := lockCall(es.X)
+	id, op := m.lockCall(es.X)
 	if id == "" || (op != "Lock" && op != "RLock") {
 		return "", "", false
 	}
@@ -211,7 +229,7 @@ func isLockIf(s *ast.IfStmt) (string, string, bool) {
 	if !ok {
 		return "", "", false
 	}
-	id2, op2 := lockCall(ds.Call)
+	id2, op2 := m.lockCall(ds.Call)
 	if id2 != id || !strings.HasSuffix(op2, "Unlock") {
 		return "", "", false
 	}
@@ -222,7 +240,7 @@ func (m *methodInfo) walk(stmts []ast.Stmt, st *lockState, top bool) {
 	for _, s := range stmts {
 		switch v := s.(type) {
 		case *ast.ExprStmt:
-			if id, op := lockCall(v.X); id != "" {
+			if id, op := m.lockCall(v.X); id != "" {
 				if !top {
 					if strings.HasSuffix(op, "Unlock") {
 						if _, held := st.held[id]; held {
@@ -246,7 +264,7 @@ func (m *methodInfo) walk(stmts []ast.Stmt, st *lockState, top bool) {
 			}
 			m.scan(v.X, st, false)
 		case *ast.DeferStmt:
-			if id, op := lockCall(v.Call); id != "" && strings.HasSuffix(op, "Unlock") {
+			if id, op := m.lockCall(v.Call); id != "" && strings.HasSuffix(op, "Unlock") {
 				if _, held := st.held[id]; !held || !top {
 					m.unknown = true
 				}
@@ -254,7 +272,7 @@ func (m *methodInfo) walk(stmts []ast.Stmt, st *lockState, top bool) {
 			}
 			m.scan(v.Call, st, false)
 		case *ast.IfStmt:
-			if id, op, ok := isLockIf(v); ok && top {
+			if id, op, ok := m.isLockIf(v); ok && top {
 				st.held[id] = op
 				if id == m.recvName {
 					m.selfLocks = true
@@ -309,6 +327,7 @@ func collectMethodsAndFacts(repo string) ([]*methodInfo, *repoFacts, error) {
 	sort.Strings(files)
 	var out []*methodInfo
 	facts := &repoFacts{fset: fset, fieldTypes: map[string]map[string]string{}, lockingFuncs: map[string]bool{}, lockingForeignMethods: map[string]bool{}}
+	var parsed []*ast.File
 	for _, f := range files {
 		if strings.HasSuffix(f, "_test.go") || strings.HasPrefix(filepath.Base(f), "verif_") {
 			continue
@@ -317,7 +336,23 @@ func collectMethodsAndFacts(repo string) ([]*methodInfo, *repoFacts, error) {
 		if err != nil {
 			return nil, nil, err
 		}
+		parsed = append(parsed, af)
+	}
+	// the struct declarations first (mutex field by declared type, fields of the five types), then the
+	// functions that mention a lock, then the methods: a method may precede its struct, in another file
+	mutexFieldOf, mutexNames, mutexProblem = map[string]string{}, map[string]bool{}, map[string]string{}
+	for _, af := range parsed {
+		facts.collectStructs(af)
+	}
+	for t := range memTypes {
+		if _, ok := facts.fieldTypes[t]; !ok {
+			mutexProblem[t] = "struct declaration not found"
+		}
+	}
+	for _, af := range parsed {
 		facts.collect(af)
+	}
+	for _, af := range parsed {
 		for _, d := range af.Decls {
 			fd, ok := d.(*ast.FuncDecl)
 			if !ok || fd.Recv == nil || len(fd.Recv.List) == 0 || fd.Body == nil {
@@ -341,6 +376,9 @@ func collectMethodsAndFacts(repo string) ([]*methodInfo, *repoFacts, error) {
 				}
 			}
 			m.walk(fd.Body.List, &lockState{held: map[string]string{}}, true)
+			if mutexProblem[rt] != "" {
+				m.unknown = true
+			}
 			out = append(out, m)
 		}
 	}
@@ -375,11 +413,17 @@ func genLockTable(repo string) (string, error) {
 		for _, m := range ms {
 			for _, hc := range m.calls {
 				h := byKey[hc.typ+"."+hc.method]
-				if h == nil || h.selfLocks || exemptMethods[h.name] {
+				if h == nil || exemptMethods[h.name] || (h.selfLocks && ast.IsExported(h.name)) {
 					continue
 				}
 				for _, a := range h.accesses {
 					if a.recv != h.recvName {
+						continue
+					}
+					if h.selfLocks {
+						// an UNEXPORTED method that takes the lock of its receiver itself (a phase of the caller
+						// moved into a helper): its accesses are the caller's, guarded the way the helper guards them
+						m.accesses = append(m.accesses, access{hc.recv, a.write, a.guarded, a.excl})
 						continue
 					}
 					m.accesses = append(m.accesses, access{hc.recv, a.write, hc.guarded, hc.excl})
@@ -446,6 +490,10 @@ func genLockTable(repo string) (string, error) {
 // order, nested or one after the other".  Same rules: syntactic, path-insensitive wherever the
 // paths disagree, and `sectionsUnknown` for every shape that is not listed here:
 //
+//   `X.lock` below stands for X.<the mutex field of X's type>: the one field declared sync.Mutex /
+//   sync.RWMutex / pointer to either, whatever its name (collectStructs; a struct of the five with none,
+//   several or an embedded one makes every method of the type unknown).
+//
 //   understood
 //     X.lock.Lock() / X.lock.RLock()        as a statement of the function body itself (not inside
 //                                           a branch, a loop, a block or a closure)
@@ -462,6 +510,11 @@ func genLockTable(repo string) (string, error) {
 //                                           section of the callee's instance, not expanded
 //     X.h(..)                               h a method of the five types that takes no lock: its
 //                                           accesses are charged to the section open on X here
+//     X.p(..)                               p an UNEXPORTED method that takes locks itself, called as a
+//                                           statement / in an expression of the function body: expanded
+//                                           in place - p's sections become sections of the caller, on X
+//                                           for p's receiver, on the argument for p's parameters (a phase
+//                                           of the caller moved into a private method)
 //   X is the receiver (`recv`), a parameter (`arg`), recv.f for a field f whose type is one of the
 //   five types or a local `a := recv.f` (`field`), anything else (`other`).
 //
@@ -477,7 +530,8 @@ func genLockTable(repo string) (string, error) {
 //     the package whose body mentions a lock; an instance of the five types handed to a function
 //     that is not a method of the five types; a call to a locking method outside every section from
 //     inside a branch or loop (the number of sections would depend on the path); a re-assigned
-//     alias.
+//     alias; an unexported locking helper called inside a branch / loop, recursively, or locking an
+//     instance the caller already holds.
 
 type repoFacts struct {
 	fset                  *token.FileSet
@@ -491,7 +545,10 @@ func mentionsLock(n ast.Node) bool {
 	ast.Inspect(n, func(x ast.Node) bool {
 		if sel, ok := x.(*ast.SelectorExpr); ok {
 			switch sel.Sel.Name {
-			case "lock", "Lock", "RLock", "Unlock", "RUnlock", "TryLock", "TryRLock":
+			case "Lock", "RLock", "Unlock", "RUnlock", "TryLock", "TryRLock":
+				found = true
+			}
+			if mutexNames[sel.Sel.Name] {
 				found = true
 			}
 		}
@@ -500,7 +557,32 @@ func mentionsLock(n ast.Node) bool {
 	return found
 }
 
-func (rf *repoFacts) collect(af *ast.File) {
+// isMutexType: sync.Mutex / sync.RWMutex / pointer to either (`sync` under whatever name the file imports it)
+func isMutexType(e ast.Expr, syncName string) bool {
+	if st, ok := e.(*ast.StarExpr); ok {
+		e = st.X
+	}
+	if p, ok := e.(*ast.ParenExpr); ok {
+		e = p.X
+	}
+	sel, ok := e.(*ast.SelectorExpr)
+	if !ok {
+		return false
+	}
+	pkg, ok := sel.X.(*ast.Ident)
+	return ok && pkg.Name == syncName && (sel.Sel.Name == "Mutex" || sel.Sel.Name == "RWMutex")
+}
+
+func (rf *repoFacts) collectStructs(af *ast.File) {
+	syncName := ""
+	for _, im := range af.Imports {
+		if im.Path.Value == `"sync"` {
+			syncName = "sync"
+			if im.Name != nil {
+				syncName = im.Name.Name
+			}
+		}
+	}
 	for _, d := range af.Decls {
 		switch v := d.(type) {
 		case *ast.GenDecl:
@@ -517,7 +599,16 @@ func (rf *repoFacts) collect(af *ast.File) {
 					continue
 				}
 				ft := map[string]string{}
+				var mutexes []string
 				for _, f := range st.Fields.List {
+					if syncName != "" && syncName != "_" && syncName != "." && isMutexType(f.Type, syncName) {
+						if len(f.Names) == 0 {
+							mutexes = append(mutexes, "(embedded)")
+						}
+						for _, n := range f.Names {
+							mutexes = append(mutexes, n.Name)
+						}
+					}
 					tn := typeName(f.Type)
 					if _, ok := memTypes[tn]; ok {
 						for _, n := range f.Names {
@@ -526,7 +617,25 @@ func (rf *repoFacts) collect(af *ast.File) {
 					}
 				}
 				rf.fieldTypes[ts.Name.Name] = ft
+				switch {
+				case len(mutexes) == 0:
+					mutexProblem[ts.Name.Name] = "no field of type sync.Mutex / sync.RWMutex"
+				case len(mutexes) > 1:
+					mutexProblem[ts.Name.Name] = "several mutex fields: " + strings.Join(mutexes, ", ")
+				case mutexes[0] == "(embedded)":
+					mutexProblem[ts.Name.Name] = "embedded mutex"
+				default:
+					mutexFieldOf[ts.Name.Name] = mutexes[0]
+					mutexNames[mutexes[0]] = true
+				}
 			}
+		}
+	}
+}
+
+func (rf *repoFacts) collect(af *ast.File) {
+	for _, d := range af.Decls {
+		switch v := d.(type) {
 		case *ast.FuncDecl:
 			if v.Body == nil || !mentionsLock(v.Body) {
 				continue
@@ -588,6 +697,7 @@ type secItem struct {
 	endPos      token.Position // first explicit release seen
 	args        []ast.Expr     // call arguments (calls only)
 	held        pstate         // the sections held when this one starts, outermost first
+	via         string         // set on sections that were expanded from a private locking helper
 }
 
 type rw struct{ r, w bool }
@@ -604,6 +714,9 @@ type secAnalysis struct {
 	unknown  bool
 	why      []string
 	locking  bool
+	// items with the calls of unexported locking methods replaced by those methods' own sections
+	expanded     []*secItem
+	expandedDone bool
 }
 
 func (sa *secAnalysis) anyBare() bool {
@@ -683,7 +796,16 @@ func (sa *secAnalysis) resolve(e ast.Expr) (instRef, bool) {
 	return instRef{}, false
 }
 
-// lockOp recognises E.lock.Lock() / RLock() / Unlock() / RUnlock() for an arbitrary E
+// isMutexSel: E.<name> where <name> is the mutex field of E's type (or, for an E whose type is not
+// known, the mutex field name of any of the five types)
+func (sa *secAnalysis) isMutexSel(v *ast.SelectorExpr) bool {
+	if r, ok := sa.resolve(v.X); ok {
+		return isMutexField(r.typ, v.Sel.Name)
+	}
+	return mutexNames[v.Sel.Name]
+}
+
+// lockOp recognises E.<mutex>.Lock() / RLock() / Unlock() / RUnlock() for an arbitrary E
 func (sa *secAnalysis) lockOp(e ast.Expr) (instRef, string, bool) {
 	call, ok := e.(*ast.CallExpr)
 	if !ok || len(call.Args) != 0 {
@@ -694,7 +816,7 @@ func (sa *secAnalysis) lockOp(e ast.Expr) (instRef, string, bool) {
 		return instRef{}, "", false
 	}
 	inner, ok := sel.X.(*ast.SelectorExpr)
-	if !ok || inner.Sel.Name != "lock" {
+	if !ok {
 		return instRef{}, "", false
 	}
 	switch sel.Sel.Name {
@@ -706,6 +828,9 @@ func (sa *secAnalysis) lockOp(e ast.Expr) (instRef, string, bool) {
 	if !ok {
 		s := exprString(inner.X)
 		r = instRef{s, "other", s, ""}
+	}
+	if !isMutexField(r.typ, inner.Sel.Name) {
+		return instRef{}, "", false
 	}
 	return r, sel.Sel.Name, true
 }
@@ -802,7 +927,7 @@ func (sa *secAnalysis) scanNode(n ast.Node, st pstate, ctx walkCtx, lhsWrite boo
 	ast.Inspect(n, func(x ast.Node) bool {
 		switch v := x.(type) {
 		case *ast.SelectorExpr:
-			if v.Sel.Name == "lock" {
+			if sa.isMutexSel(v) {
 				sa.refuse(v.Pos(), "mutex %s used outside a Lock/Unlock statement", exprString(v))
 			}
 		case *ast.GoStmt:
@@ -1100,6 +1225,9 @@ func (sa *secAnalysis) run() {
 			sa.paramTyp[n.Name] = pt
 		}
 	}
+	if why := mutexProblem[sa.m.typ]; why != "" {
+		sa.refuse(fd.Pos(), "mutex field of %s not understood: %s", sa.m.typ, why)
+	}
 	st, term := sa.walk(fd.Body.List, nil, walkCtx{})
 	if !term && !st.allDeferred() {
 		sa.refuse(fd.Body.Rbrace, "end of body with a lock held whose release is not deferred")
@@ -1145,7 +1273,7 @@ func analyseSections(ms []*methodInfo, byKey map[string]*methodInfo, facts *repo
 					continue
 				}
 				h := bySa[it.inst.typ+"."+it.callee]
-				if h.locking {
+				if h.locking && !h.expandable() {
 					continue
 				}
 				if h.unknown && !sa.unknown {
@@ -1211,6 +1339,15 @@ func analyseSections(ms []*methodInfo, byKey map[string]*methodInfo, facts *repo
 			kept = append(kept, it)
 		}
 		sa.items = kept
+	}
+	// calls of UNEXPORTED locking methods are expanded in place: the helper's sections become sections of
+	// the caller, on the instance the helper was called on / was handed (a phase of the caller that was
+	// moved into a private method, e.g. "lock the argument, copy, unlock")
+	for _, sa := range all {
+		sa.expand(bySa, map[*secAnalysis]bool{})
+	}
+	for _, sa := range all {
+		sa.items = sa.expanded
 		// seq: released before the next item starts <=> the next item does not start inside it
 		for i, it := range sa.items {
 			it.seq = true
@@ -1224,6 +1361,101 @@ func analyseSections(ms []*methodInfo, byKey map[string]*methodInfo, facts *repo
 		}
 	}
 	return all
+}
+
+// expandable: an unexported method that takes locks itself
+func (sa *secAnalysis) expandable() bool { return sa.locking && !ast.IsExported(sa.m.name) }
+
+// mapInst: an instance named in the frame of the callee h, renamed into the frame of the caller sa
+func (sa *secAnalysis) mapInst(h *secAnalysis, r instRef, call *secItem) instRef {
+	switch r.kind {
+	case "recv":
+		return call.inst
+	case "arg":
+		for i, pn := range h.params {
+			if pn == r.name && i < len(call.args) {
+				if t, ok := sa.resolve(call.args[i]); ok {
+					return t
+				}
+				s := exprString(call.args[i])
+				return instRef{"?" + s, "other", s, r.typ}
+			}
+		}
+	case "field":
+		if call.inst.kind == "recv" {
+			return instRef{call.inst.key + "." + r.name, "field", r.name, r.typ}
+		}
+		k := call.inst.key + "." + r.name
+		return instRef{k, "other", k, r.typ}
+	}
+	return instRef{"?" + h.m.name + ":" + r.key, "other", r.name, r.typ}
+}
+
+func (sa *secAnalysis) expand(bySa map[string]*secAnalysis, visiting map[*secAnalysis]bool) {
+	if sa.expandedDone {
+		return
+	}
+	visiting[sa] = true
+	var out []*secItem
+	for _, it := range sa.items {
+		var h *secAnalysis
+		if it.mode == "call" {
+			h = bySa[it.inst.typ+"."+it.callee]
+		}
+		if h == nil || !h.expandable() {
+			out = append(out, it)
+			continue
+		}
+		where := fmt.Sprintf("%s:%d", filepath.Base(it.pos.Filename), it.pos.Line)
+		if visiting[h] {
+			sa.unknown = true
+			sa.why = append(sa.why, where+" recursive call of the locking helper "+h.m.name)
+			out = append(out, it)
+			continue
+		}
+		h.expand(bySa, visiting)
+		if it.depth > 0 {
+			sa.unknown = true
+			sa.why = append(sa.why, where+" locking helper "+h.m.name+" called inside a branch, loop or block")
+		}
+		if h.unknown && !sa.unknown {
+			sa.unknown = true
+			sa.why = append(sa.why, where+" calls "+h.m.typ+"."+h.m.name+", which is not understood")
+		}
+		copyOf := map[*secItem]*secItem{}
+		for _, hi := range h.expanded {
+			c := *hi
+			c.inst = sa.mapInst(h, hi.inst, it)
+			c.held = it.held.clone()
+			for _, o := range hi.held {
+				if oc := copyOf[o]; oc != nil {
+					c.held = append(c.held, oc)
+				}
+			}
+			if c.mode != "call" && c.held.on(c.inst.key) != nil {
+				sa.unknown = true
+				sa.why = append(sa.why, where+" "+h.m.name+" locks "+c.inst.key+", which is already held here")
+			}
+			c.outer = c.held.innermost()
+			c.nested = c.outer != nil
+			if c.via == "" {
+				c.via = h.m.typ + "." + h.m.name + ", called at " + where
+			} else {
+				c.via += " <- " + h.m.name + ", called at " + where
+			}
+			copyOf[hi] = &c
+			out = append(out, &c)
+		}
+	}
+	delete(visiting, sa)
+	sa.expanded, sa.expandedDone = out, true
+}
+
+func mutexShown(typ string) string {
+	if n := mutexFieldOf[typ]; n != "" {
+		return n
+	}
+	return "<mutex>"
 }
 
 func writeSectionTable(sb *strings.Builder, all []*secAnalysis) {
@@ -1250,11 +1482,14 @@ func writeSectionTable(sb *strings.Builder, all []*secAnalysis) {
 			case it.mode == "call":
 				what = fmt.Sprintf("call %s.%s on %s", it.inst.typ, it.callee, it.inst.show())
 			case it.conditional:
-				what = fmt.Sprintf("if .. { %s.lock.%s(); defer unlock } on %s, until return", it.inst.key, map[string]string{"W": "Lock", "R": "RLock"}[it.mode], it.inst.show())
+				what = fmt.Sprintf("if .. { %s.%s.%s(); defer unlock } on %s, until return", it.inst.key, mutexShown(it.inst.typ), map[string]string{"W": "Lock", "R": "RLock"}[it.mode], it.inst.show())
 			case it.deferred:
-				what = fmt.Sprintf("%s.lock.%s() on %s, deferred unlock: until return", it.inst.key, map[string]string{"W": "Lock", "R": "RLock"}[it.mode], it.inst.show())
+				what = fmt.Sprintf("%s.%s.%s() on %s, deferred unlock: until return", it.inst.key, mutexShown(it.inst.typ), map[string]string{"W": "Lock", "R": "RLock"}[it.mode], it.inst.show())
 			default:
-				what = fmt.Sprintf("%s.lock.%s() on %s, first unlock at line %d", it.inst.key, map[string]string{"W": "Lock", "R": "RLock"}[it.mode], it.inst.show(), it.endPos.Line)
+				what = fmt.Sprintf("%s.%s.%s() on %s, first unlock at line %d", it.inst.key, mutexShown(it.inst.typ), map[string]string{"W": "Lock", "R": "RLock"}[it.mode], it.inst.show(), it.endPos.Line)
+			}
+			if it.via != "" {
+				what += " (in " + it.via + ")"
 			}
 			fmt.Fprintf(sb, "      -- %s:%d %s\n", filepath.Base(it.pos.Filename), it.pos.Line, what)
 			outer, outerTyp := ".none", ""
